@@ -160,3 +160,13 @@ def bc_assumptions(ck, quick):
                      count_events=lambda t: 1)
     ck.classify(fails, lambda fl: {"alg": "bc-helper", "call": fl["trace"]})
     ck.cat("bc_helper_calls", len(stim))
+
+
+def cg_trail_replay(ck, maxn, maxv, maxk, switches):
+    """the whole cut history of the real complete greedy against the model's trail (every interruption point, DRIFT level)"""
+    r = ck.mc("CompleteGreedy", cg_cfg(maxn, maxv, maxk, switches, False, ["Emit"]), "GEN CompleteGreedy trails (incumbent value after every loop iteration)")
+    recs = r.emitted
+    traces = [t for p in core.pmap(drive.replay_cg_trail, recs) for t in p]
+    fails = ck.judge("JDrift", traces, {"DRIFT"}, what="spec->code replay of CompleteGreedy cut histories (%d stimuli, every interruption point)" % len(recs), count_events=lambda t: len(t["m"]))
+    ck.classify(fails, lambda fl: {"alg": "cg", "key": fl["trace"]["key"], "model": fl["trace"]["m"], "code": fl["trace"]["c"]})
+    ck.cat("cg_trail_replays", len(recs))
